@@ -228,7 +228,9 @@ theorem thunk_head' {tmpl : Term} {max : Nat} {cl : Clause} {h b : Term} (hcr : 
             (∀ v, D v → D' v) ∧
             (∀ t, InD D t → img σ' π' t = (img σ π t).subst τ2) ∧
             (∀ G, ContGoals tmpl max K G → ContGoals tmpl max K1 (G1 ++ G)) ∧
-            Forall2 (fun g1 bg => InD D' g1 ∧ img σ' π' g1 = (bg.rename κ).subst τ2) G1 Bs) := by
+            Forall2 (fun g1 bg => InD D' g1 ∧ img σ' π' g1 = (bg.rename κ).subst τ2) G1 Bs ∧
+            (∀ v, D' v → D v ∨ ∃ x, (h.hasVar x = true ∨ b.hasVar x = true) ∧
+              img σ' π' (.var v) = ((Term.var x).rename κ).subst τ2)) := by
   obtain ⟨hargs, pre, bops, gs, hl, hcode, hpre, hsem, hgoals, hbody⟩ := hcr.info
   -- the clause variables
   let V : Nat → Prop := fun x => h.hasVar x = true ∨ ∃ g0 ∈ gs, (goalTerm g0).hasVar x = true
@@ -248,7 +250,7 @@ theorem thunk_head' {tmpl : Term} {max : Nat} {cl : Clause} {h b : Term} (hcr : 
         · have : goalTerm g0 ∈ SLD.conjuncts b := by rw [hb]; exact List.mem_map_of_mem hg0
           exact Or.inr (conjuncts_vars this hx)
         · subst hb; simp at hg0
-  obtain ⟨π₁, D', hsim1, hDD', himg_old, himg_new⟩ :=
+  obtain ⟨π₁, D', hsim1, hDD', himg_old, himg_new, hD'char⟩ :=
     simW_act' hsim hN hl.nodup V κ nv' (fun x hx => (hV x hx).1) hnv
       (fun x y hx hy => hκ1 x y (hV x hx).2 (hV y hy).2)
       (fun x u hx hu => hκ2 x u (hV x hx).2 hu) (fun x hx => hκ3 x (hV x hx).2)
@@ -304,7 +306,19 @@ theorem thunk_head' {tmpl : Term} {max : Nat} {cl : Clause} {h b : Term} (hcr : 
       refine ⟨σ', π', D', gs.map (fun g0 => (goalTerm g0).rename ρ),
         ⟨hσ', hchain.chainOK hsim1.chain, by have := hsim.pos; omega,
           fun v hv => ⟨(hsim1.dlt v hv).1, Nat.lt_of_lt_of_le (hsim1.dlt v hv).2 hchain.le⟩, hinj, ?_,
-          hsim1.tmplD⟩, hDD', ?_, ?_, ?_⟩
+          hsim1.tmplD⟩, hDD', ?_, ?_, ?_, ?_⟩
+      rotate_left 4
+      · intro v hv
+        rcases hD'char v hv with hv | ⟨x, hx, rfl⟩
+        · exact Or.inl hv
+        · right
+          have hxV : ∀ y, (Term.var x).hasVar y = true → V y := fun y hy => by
+            simp only [Term.hasVar, beq_iff_eq] at hy; subst hy; exact hx
+          obtain ⟨h1, h2⟩ := himg_new (.var x) hxV
+          refine ⟨x, (hV x hx).2, ?_⟩
+          have e : (Term.var x).rename ρ = .var (ρ x) := rfl
+          rw [e] at h1 h2
+          rw [heq' _ h2, h1]
       · refine bnd_step' hτ'.vars ?_ ?_ hsim1.bnd heq
         · intro z hz; exact img_vars_lt hsim1 hgD' hz
         · intro z hz; exact img_vars_lt hsim1 hhD hz
@@ -358,7 +372,7 @@ theorem thunk_head {tmpl : Term} {max : Nat} {cl : Clause} {h b : Term} (hcr : C
     · intro n hr; rw [shift_eq_rename] at hr; exact hnoclash n hr
     · intro n θ2 hr
       rw [shift_eq_rename] at hr
-      obtain ⟨σ', π', D', G1, h1, h2, h3, h4, h5⟩ := hok (substOf θ2) (mguLike_of_solve hr)
+      obtain ⟨σ', π', D', G1, h1, h2, h3, h4, h5, _⟩ := hok (substOf θ2) (mguLike_of_solve hr)
       refine ⟨σ', π', D', G1, h1, h2, h3, h4, h5.imp ?_⟩
       intro g1 bg hgb
       rw [shift_eq_rename]; exact hgb
